@@ -960,6 +960,9 @@ static int32_t tls13ParseHandshakeMessage(ssl_t *ssl,
         *bufStart += hsMsgLen + TLS_HS_HDR_LEN;
         /* End of the single handshake message */
         msgEnd = msgStart + hsMsgLen + TLS_HS_HDR_LEN;
+        /* The message parsers work on pb: they must not see what follows
+           this message in the record */
+        pb.buf.end = msgEnd;
     }
 
     /* Check that message type is valid for the current state. */
